@@ -240,7 +240,7 @@ func C11(r *core.Report) {
 	r.Floor("C11.R8", 3)
 	r.Floor("C11.R6", 1)
 	r.Floor("C11.R1", 30)
-	r.Floor("C11.R2", 8)
+	r.Floor("C11.R2", 7)
 	r.Floor("C11.R3", 8)
 }
 
